@@ -456,7 +456,7 @@ Section Elem.
   Definition object_alts := object_alts_c true.
 End Elem.
 
-(* arrays and dictionaries nest at most MAX_BRACKET levels: [depth] is the number of container
+(* arrays and dictionaries nest at most MAX_NESTING levels: [depth] is the number of container
    levels still allowed; the elements of a container are parsed one level down *)
 Definition depth_ok (depth : nat) : bool := match depth with O => false | S _ => true end.
 
@@ -466,9 +466,9 @@ Fixpoint direct_objects_at (fuel : nat) (depth : nat) (s : bytes) : pres obj :=
   | S f => object_alts_c (direct_objects_at f (pred depth)) (depth_ok depth) true f s
   end.
 
-Definition MAX_DEPTH : nat := N.to_nat MAX_BRACKET.
+Definition MAX_DEPTH : nat := N.to_nat MAX_NESTING.
 
-(* _direct_objects = _direct_objects_at(MAX_BRACKET) *)
+(* _direct_objects = _direct_objects_at(MAX_NESTING) *)
 Definition direct_objects (fuel : nat) (s : bytes) : pres obj := direct_objects_at fuel MAX_DEPTH s.
 
 Definition direct_object (fuel : nat) (s : bytes) : pres obj :=
@@ -496,7 +496,7 @@ Definition operator (s : bytes) : pres bytes :=
   match op with [] => PErr | _ => POk op r end.
 
 (* operand = terminated(alt(... without reference ...), content_space); its array and dictionary
-   alternatives start at depth MAX_BRACKET *)
+   alternatives start at depth MAX_NESTING *)
 Definition operand (fuel : nat) (s : bytes) : pres obj :=
   match fuel with
   | O => POut
@@ -604,7 +604,7 @@ Definition inline_image (fuel : nat) (s : bytes) : pres (list obj * bytes) :=
     | O => POut
     | S f =>
       (* cut: every Error below becomes Failure *)
-      (* inner_dictionary = inner_dictionary_at(MAX_BRACKET - 1) *)
+      (* inner_dictionary = inner_dictionary_at(MAX_NESTING - 1) *)
       match inner_dictionary (direct_objects_at f (pred MAX_DEPTH)) f (content_space r) [] with
       | POk d r1 =>
         match ptag (bs "ID") r1 with
